@@ -1548,6 +1548,11 @@ def method(I, f, args, kwargs, node):
         if name == "reverse" and b.kind == "list" and plain:
             b.items.reverse()
             return None
+        if name == "sort" and b.kind == "list" and len(b.items) == 1 and isinstance(b.items[0], GenList) and not args and kwargs.get("reverse") in (None, False):
+            srt = _sort_generated(I, b.items[0], kwargs.get("key"), node)
+            if srt is not None:
+                b.items[0] = srt
+                return None
         if name in ("insert", "extend", "remove", "sort", "reverse", "__setitem__", "__delitem__") and b.kind in ("list", "dict"):
             # a mutation that is not followed: what the container holds afterwards is not known
             b.items.append(Unknown("contents after %s() with arguments that are not modelled" % name) if b.kind == "list" else (Unknown("key"), Unknown("value")))
@@ -1592,6 +1597,41 @@ def consume(x):
         del x.items[:]
         return Tup(items, "list")
     return x
+
+
+
+PERMUTATIONS = ("completion_order@",)  # integer functions of a position that are known to be permutations of the positions
+
+
+def _sort_generated(I, g, keyf, node):
+    """[e(p(j)) for j in range(n)].sort(key=f) for an unknown permutation p of the positions (results collected in completion order):
+    a key that increases with the position the element was produced for restores the original order; a key that reads data at
+    that position orders the list by the data - another order, named `sorted_by_key@line` - ; anything else is not followed"""
+    try:
+        kv = I.call(keyf, [g.elem], {}, node, {}) if keyf is not None else g.elem
+    except AnalysisError:
+        return None
+    if not isinstance(kv, Expr):
+        return None
+    iv = alg.atom_expr(g.ivar)
+    perms = [a for a in kv.atoms() if a.kind == "fn" and a.name.startswith(PERMUTATIONS) and len(a.args) == 1 and isinstance(a.args[0], Expr) and a.args[0].eq(iv)]
+    if not perms:
+        try:
+            d = kv.diff(g.ivar)
+        except Exception:
+            return None
+        c = d.as_const() if isinstance(d, Expr) else None
+        return g if c is not None and c.im == 0 and c.re > 0 else None  # already ascending in its key
+    if len(perms) != 1:
+        return None
+    p = perms[0]
+    rest = (kv - kv.coeff_of(p, 1) * alg.atom_expr(p)).expand()
+    c = kv.coeff_of(p, 1).as_const()
+    if c is not None and c.im == 0 and c.re > 0 and p not in rest.atoms() and g.ivar not in rest.atoms():
+        return GenList(I_.subst_value(g.elem, {p: iv}), g.ivar, g.rng)
+    order = alg.fn("sorted_by_key@%d" % getattr(node, "lineno", 0), iv, integer=True)
+    I.event("data-ordered", node, "a list collected in completion order is sorted by %r: its order is that of the key's values, not of the positions" % (kv,))
+    return GenList(I_.subst_value(g.elem, {p: order}), g.ivar, g.rng)
 
 
 def builtin(I, name, args, kwargs, node, env):
